@@ -1,5 +1,62 @@
-import Pithos.Model.S3
+/-
+C14 — storage-class transitions preserve objects (the routing of part data to named stores is
+validated by the tie on the `named` stack; the model abstracts stores to "parts are readable").
+-/
+import Pithos.Lemmas.S3Current
+import Pithos.Props.C13
+
 namespace Pithos.C14
 open Pithos.S3
-theorem placeholder_run_nil (q : Quirks) (s : State) : (run q s []).2 = [] := rfl
+
+/-- **transition_preserves (current version).** A successful transition of the current version of a
+key changes only the reported storage class: the next GET/HEAD returns the same version id, body,
+size, ETag, content type, metadata and tags, with the class set to the target. Every reachable
+state (row invariant), every quirk setting. -/
+theorem transition_preserves (q : Quirks) (s s1 : State) (hinv : Inv s) (b k cls : String)
+    (hack : step q s (.transition b k cls none) = (s1, .unit)) :
+    ∃ v0 v1, (step q s (.get b k none)).2 = .obj v0 ∧ (step q s1 (.get b k none)).2 = .obj v1 ∧
+      v1.vid = v0.vid ∧ v1.body = v0.body ∧ v1.size = v0.size ∧ v1.etag = v0.etag ∧ v1.ct = v0.ct ∧
+      v1.md = v0.md ∧ v1.tags = v0.tags ∧ v1.cls = some cls := by
+  have hfbt : ∀ x, findBucket { s with clock := s.clock + 1 } x = findBucket s x := fun _ => rfl
+  simp only [step, stepT, hfbt] at hack
+  cases hfb : findBucket s b with
+  | none => simp [hfb] at hack
+  | some bk =>
+    simp only [hfb] at hack
+    cases hl : latestRow bk k with
+    | none => simp [hl] at hack
+    | some r =>
+      simp only [hl] at hack
+      by_cases hd : r.dm = true
+      · simp [hd] at hack
+      · simp only [hd] at hack
+        simp only [Bool.false_eq_true, ↓reduceIte, Prod.mk.injEq, and_true] at hack
+        have hbk := hinv bk (findBucket_mem hfb)
+        have hname := findBucket_some_name hfb
+        subst hack
+        generalize hy : touch q (s.clock + 1) _ = y
+        have hyid : y.rowId = r.rowId := by rw [← hy]; simp [touch]
+        have hyk : y.key = r.key := by rw [← hy]; simp [touch]
+        have hyl : y.latest = true := by rw [← hy]; simp [touch, (latestRow_some hl).2.2]
+        have hl1 : latestRow (replaceRow bk y) k = some y := latestRow_repl_keep hbk hl hyid hyk hyl
+        have hfb1 : findBucket (setBucket { s with clock := s.clock + 1 } (replaceRow bk y)) b = some (replaceRow bk y) := by
+          exact findBucket_setBucket (s := { s with clock := s.clock + 1 }) hfb (by rw [replaceRow_name, hname])
+        have hdy : y.dm = false := by rw [← hy]; simp [touch]
+        obtain ⟨g0, _⟩ := get_current (q := q) hfb hl (by simpa using hd)
+        obtain ⟨g1, _⟩ := get_current (q := q) hfb1 hl1 hdy
+        refine ⟨viewOf r, viewOf y, g0, g1, ?_⟩
+        rw [← hy]
+        simp [viewOf, touch, Row.content, Row.size]
+
+/-- Transitions never touch any *other* version that has a version id (corollary of C13). -/
+theorem transition_keeps_other_versions (q : Quirks) (hq : q.appendLatestInPlace = false) (s : State) (hinv : Inv s)
+    (b b' k cls : String) (vid : Option (Option Nat)) (bk : Bucket) (r : Row)
+    (hfb : findBucket s b = some bk) (hver : bk.ver ≠ .off) (hr : r ∈ bk.rows) (hv : r.vid ≠ none) :
+    ∃ bk', findBucket (step q s (.transition b' k cls vid)).1 b = some bk' ∧ ∃ r' ∈ bk'.rows, frozenEq q r r' :=
+  C13.version_frozen q hq s hinv _ b bk r hfb hver hr hv (by intro _ _ _ _ h; cases h)
+
+/-- Non-vacuity: a concrete reachable state in which a transition succeeds. -/
+example : (step Quirks.code (run Quirks.code {} [.mkb "b", .put "b" "k" [1, 2] {} false .none]).1
+    (.transition "b" "k" "GLACIER" none)).2 = .unit := by decide
+
 end Pithos.C14
